@@ -292,18 +292,138 @@ Lemma array_deref_nil : forall idx, Forall (fun i => 0 <= i < two31) idx ->
   array_deref None idx = Exc NilPointer.
 Proof. intros idx H. unfold array_deref. now rewrite pop_indices_nonneg. Qed.
 
-(* ---- what the code does NOT guarantee: extents whose product does not fit 32 bits --------- *)
-(* object_arr_dim_mult wraps: the array gets `elems` = 0 cells, yet an in-range index tuple
-   passes the guard and element 0 is read. *)
-Theorem dim_mult_overflow_refuted :
-  exists exts idx, Forall ext_ok exts /\ in_range exts idx /\
-    exists k, array_deref (Some (mk_arr exts)) idx = Ok k /\ arr_elems exts <= k.
+(* ---- object_arr_dim_fits and the MK_ARRAY handler (fix 1f9996a) ------------------------------ *)
+Lemma dim_fits_loop_spec : forall exts e,
+  Forall (fun n => 0 < n) exts -> 0 < e < two32 ->
+  (dim_fits_loop e exts = true <-> e * prodZ exts < two32).
 Proof.
-  exists [65536; 65536], [1; 1].
-  split. { repeat constructor; unfold ext_ok, two31; lia. }
-  split. { cbn. lia. }
-  exists 0. vm_compute. split; [reflexivity|discriminate].
+  induction exts as [|n t IH]; intros e Hp He; cbn [dim_fits_loop prodZ].
+  - split; [intros _; lia | reflexivity].
+  - inversion Hp as [|? ? Hn Ht]; subst. pose proof (prodZ_pos t Ht) as Hpt. cbv zeta.
+    destruct (Z.ltb_spec UINT_MAX (e * n)) as [Hbig|Hfit]; unfold UINT_MAX in *.
+    + split; [discriminate|]. unfold two32 in *. nia.
+    + rewrite IH by (try assumption; unfold two32 in *; nia).
+      rewrite Z.mul_assoc. tauto.
 Qed.
+
+Lemma dim_fits_spec : forall exts, Forall (fun n => 0 < n) exts ->
+  (dim_fits exts = true <-> prodZ exts < two32).
+Proof.
+  intros exts Hp. unfold dim_fits. rewrite dim_fits_loop_spec by (try assumption; unfold two32; lia).
+  rewrite Z.mul_1_l. tauto.
+Qed.
+
+Lemma pop_extents_inr : forall exts d ns,
+  Forall is_s32 exts -> pop_extents d exts = inr ns -> ns = exts /\ Forall (fun n => 0 < n) exts.
+Proof.
+  induction exts as [|e t IH]; intros d ns Hs H; cbn [pop_extents] in H.
+  - inversion H. split; [reflexivity|constructor].
+  - inversion Hs as [|? ? He Ht]; subst.
+    destruct (Z.leb_spec e 0); [discriminate|].
+    destruct (pop_extents (d + 1) t) as [d'|l] eqn:E; [discriminate|].
+    inversion H; subst. destruct (IH (d + 1) l Ht E) as [-> Hp].
+    rewrite u32_small by (unfold is_s32, two31, two32 in *; lia).
+    split; [reflexivity|constructor; assumption].
+Qed.
+
+Lemma pop_extents_pos : forall exts d,
+  Forall is_s32 exts -> Forall (fun n => 0 < n) exts -> pop_extents d exts = inr exts.
+Proof.
+  induction exts as [|e t IH]; intros d Hs Hp; cbn [pop_extents]; [reflexivity|].
+  inversion Hs as [|? ? He Ht]; subst. inversion Hp as [|? ? He' Ht']; subst.
+  destruct (Z.leb_spec e 0); [lia|]. rewrite IH by assumption.
+  rewrite u32_small by (unfold is_s32, two31, two32 in *; lia). reflexivity.
+Qed.
+
+Lemma pop_extents_nonpos : forall exts d,
+  ~ Forall (fun n => 0 < n) exts ->
+  exists k, pop_extents d exts = inl (d + Z.of_nat k) /\ (k < length exts)%nat /\ nthZ exts k <= 0.
+Proof.
+  induction exts as [|e t IH]; intros d H; cbn [pop_extents].
+  - exfalso. apply H. constructor.
+  - destruct (Z.leb_spec e 0).
+    + exists 0%nat. unfold nthZ. cbn. repeat split; try lia. f_equal; lia.
+    + destruct (IH (d + 1)) as [k [Hk1 [Hk2 Hk3]]].
+      * intros Hall. apply H. constructor; assumption.
+      * exists (S k). rewrite Hk1. unfold nthZ in *. cbn. repeat split; try lia. f_equal; lia.
+Qed.
+
+Lemma Forall_pos_dec : forall l : list Z,
+  Forall (fun n => 0 < n) l \/ ~ Forall (fun n => 0 < n) l.
+Proof.
+  induction l as [|n t [IH|IH]].
+  - left. constructor.
+  - destruct (Z_lt_dec 0 n); [left; constructor; assumption | right; intros H; inversion H; lia].
+  - right. intros H. inversion H. tauto.
+Qed.
+
+(* MK_ARRAY: a non-positive extent raises index_out_of_bounds naming it; positive extents whose
+   product does not fit unsigned int raise wrong_array_size; otherwise the array has exactly
+   prod(extents) cells and the row-major multipliers *)
+Theorem mk_array_spec : forall exts, Forall is_s32 exts ->
+  (Forall (fun n => 0 < n) exts -> prodZ exts < two32 ->
+     mk_array exts = Ok (mk_arr exts, prodZ exts) /\ arr_elems exts = prodZ exts) /\
+  (Forall (fun n => 0 < n) exts -> two32 <= prodZ exts -> mk_array exts = Exc WrongArraySize) /\
+  (~ Forall (fun n => 0 < n) exts ->
+     exists d, mk_array exts = Exc (IndexOob (Z.of_nat d)) /\ (d < length exts)%nat /\ nthZ exts d <= 0) /\
+  (forall dv elems, mk_array exts = Ok (dv, elems) ->
+     Forall (fun n => 0 < n) exts /\ prodZ exts < two32 /\ dv = mk_arr exts /\ elems = prodZ exts).
+Proof.
+  intros exts Hs. unfold mk_array. split; [|split; [|split]].
+  - intros Hp Hb. rewrite pop_extents_pos by assumption.
+    assert (F : dim_fits exts = true) by (apply dim_fits_spec; assumption).
+    rewrite F. cbn [negb]. unfold mk_arr, arr_elems. rewrite dim_mult_exact by assumption.
+    split; reflexivity.
+  - intros Hp Hb. rewrite pop_extents_pos by assumption.
+    destruct (dim_fits exts) eqn:F; [|reflexivity].
+    apply dim_fits_spec in F; [lia|assumption].
+  - intros Hn. destruct (pop_extents_nonpos exts 0 Hn) as [k [Hk1 [Hk2 Hk3]]].
+    rewrite Hk1. cbn [Z.add]. eauto.
+  - intros dv elems H.
+    destruct (pop_extents 0 exts) as [d|ns] eqn:E; [discriminate|].
+    destruct (pop_extents_inr exts 0 ns Hs E) as [-> Hp].
+    destruct (dim_fits exts) eqn:F; cbn [negb] in H; [|discriminate].
+    apply dim_fits_spec in F; [|assumption].
+    rewrite dim_mult_exact in H by assumption. inversion H; subst.
+    unfold mk_arr. rewrite dim_mult_exact by assumption. repeat split; assumption.
+Qed.
+
+(* the property without any hypothesis on the product: for an array the VM has created, an
+   in-range index tuple denotes the row-major element, which lies inside value[]; any other
+   tuple raises index_out_of_bounds *)
+Theorem mk_array_deref_spec : forall exts dv elems idx,
+  Forall is_s32 exts -> Forall is_s32 idx -> length idx = length exts ->
+  mk_array exts = Ok (dv, elems) ->
+  (in_range exts idx ->
+     array_deref (Some dv) idx = Ok (row_major exts idx) /\ 0 <= row_major exts idx < elems) /\
+  (~ in_range exts idx ->
+     exists d, array_deref (Some dv) idx = Exc (IndexOob (Z.of_nat d)) /\
+               (d < length exts)%nat /\ (nthZ idx d < 0 \/ nthZ exts d <= nthZ idx d)).
+Proof.
+  intros exts dv elems idx Hse Hsi Hlen Hmk.
+  destruct (mk_array_spec exts Hse) as [_ [_ [_ Hinv]]].
+  destruct (Hinv dv elems Hmk) as [Hp [Hb [-> ->]]].
+  destruct (array_deref_spec exts idx Hsi Hlen) as [A1 A2]. split.
+  - intros Hin. destruct (A1 Hb Hin) as [Q1 Q2]. split; [exact Q1|].
+    apply row_major_bound. exact Hin.
+  - exact A2.
+Qed.
+
+(* regression (finding array_deref:extent-product-overflow, fixed by 1f9996a): {[65536, 65536]}
+   got 0 cells and no value[] while index [1, 1] passed the guards (former witness of
+   dim_mult_overflow_refuted); 3 * 1431655766 wrapped to 2 cells with all multipliers 0;
+   the largest products that fit are still created with their exact number of cells *)
+Theorem dim_mult_overflow_regression :
+  mk_array [65536; 65536] = Exc WrongArraySize /\
+  mk_array [65537; 65537] = Exc WrongArraySize /\
+  mk_array [3; 1431655766] = Exc WrongArraySize /\
+  mk_array [46341; 46341; 2] = Exc WrongArraySize /\
+  mk_array [2147483647; 3] = Exc WrongArraySize /\
+  mk_array [2147483647; 2147483647; 2147483647] = Exc WrongArraySize /\
+  mk_array [65535; 65537] = Ok ([(65535, 65537); (65537, 1)], 4294967295) /\
+  mk_array [65536; 65535] = Ok ([(65536, 65535); (65535, 1)], 4294901760) /\
+  mk_array [2; 0] = Exc (IndexOob 1) /\ mk_array [-1; 65536] = Exc (IndexOob 0).
+Proof. repeat split; vm_compute; reflexivity. Qed.
 
 (* ---- hypotheses are satisfiable ----------------------------------------------------------- *)
 Example dim_addr_row_major_example :
